@@ -157,4 +157,7 @@ def run(index, tier="quick", seed=0) -> Result:
         raise AnalysisError("fewer than 5 (class, implementation) pairs")
     from ..parallel import report as _copy1
     _copy1(res, index, lambda f: f['top'] == 'compute_form_factor_amplitude')
+    from ..dimscan import report_translation
+    report_translation(res, sc, lambda func, path: "compute_form_factor_amplitude" in func or any("compute_form_factor_amplitude" in p_ for p_ in path[:1]),
+                       "form factor implementations")
     return res
